@@ -60,6 +60,8 @@ spec fn realises<Pk: MiniscriptKey>(r: Satisfaction<Placeholder<Pk>>, a: ASat<Pk
 spec fn is_choice_mall<Pk: MiniscriptKey>(r: Satisfaction<Placeholder<Pk>>, a: ASat<Pk>, b: ASat<Pk>) -> bool {
     &&& (wkind(r.stack) == 0 <==> a.kind == 0 || b.kind == 0)
     &&& (wkind(r.stack) == 0 ==> realises(r, a) || realises(r, b))
+    // the result is marked as signature-protected only if every available alternative carries one
+    &&& (wkind(r.stack) == 0 && r.has_sig ==> (a.kind == 0 ==> a.has_sig) && (b.kind == 0 ==> b.has_sig))
 }
 // non-malleable mode (the specification's algorithm): an impossible alternative is ignored; if neither of
 // two possible alternatives needs a signature a third party can switch between them: return nothing;
